@@ -25,6 +25,7 @@ var c15Binds = []struct{ key, action string }{
 	{"alt-n", "change-query(a)"}, {"alt-o", "beginning-of-line"}, {"alt-p", "backward-char"},
 	{"alt-q", "change-query(abc def abc def abc def abc def abc def abc de)"}, {"alt-r", "forward-char"}, {"alt-s", "toggle-header"},
 	{"alt-t", "change-query(zzzz)"}, {"alt-u", "end-of-line"}, {"alt-v", "forward-char+forward-char+forward-char+forward-char+forward-char"},
+	{"alt-w", "reload(GEN 1)"}, {"alt-x", "reload(GEN 0)"},
 }
 
 const c15Header = "HDR:keys"
@@ -38,6 +39,7 @@ func genC15Plan(r *zsim.Rng) *sysPlan {
 		p.Multi = []int{-1, 2, 5}[r.Intn(3)]
 	}
 	p.Args = append(p.Args, "--no-scrollbar", "--no-mouse")
+	p.Gens = []lineSpec{p.Lines, {N: r.Intn(4), Seed: r.Seed53(), Shape: r.Intn(3)}}
 	switch r.Intn(3) {
 	case 1:
 		p.Args = append(p.Args, "--layout", "reverse")
@@ -55,8 +57,8 @@ func genC15Plan(r *zsim.Rng) *sysPlan {
 	if r.Chance(1, 3) {
 		p.Args = append(p.Args, "--header", c15Header)
 	}
-	if r.Chance(1, 4) {
-		p.Header = r.Range(1, 2)
+	if r.Chance(1, 3) {
+		p.Header = r.Range(1, 3)
 	}
 	if r.Chance(1, 2) {
 		p.Args = append(p.Args, "--no-unicode")
@@ -105,6 +107,10 @@ func c15Settle(r *sysRun, busy bool) {
 	}
 	t := r.t
 	plan := r.plan
+	loaded, complete := r.loadedInput()
+	if !complete {
+		return
+	}
 	cols, rows := r.tty.WinSize()
 	scr := r.tty.Screen()
 	layout := argValue(plan.Args, "--layout")
@@ -218,7 +224,7 @@ func c15Settle(r *sysRun, busy bool) {
 		if hasArg(plan.Args, "--header") {
 			headerRows0++
 		}
-		headerRows0 += minInt(plan.Header, len(r.lines))
+		headerRows0 += minInt(plan.Header, len(loaded))
 	}
 	fixed0 := 2
 	if info == "inline" {
@@ -235,8 +241,8 @@ func c15Settle(r *sysRun, busy bool) {
 	// which screen rows hold the list, in which direction
 	headerRows := 0
 	hl := plan.Header
-	if hl > len(r.lines) {
-		hl = len(r.lines)
+	if hl > len(loaded) {
+		hl = len(loaded)
 	}
 	hlShown := hl
 	if t.headerVisible {
@@ -286,7 +292,11 @@ func c15Settle(r *sysRun, busy bool) {
 			continue
 		}
 		item := st.Matches[idx]
-		want := r.lines[int(item)+hl]
+		if int(item)+hl >= len(loaded) {
+			c.violate("c15.row_text", "result %d refers to item %d but the loaded input has %d records after %d header lines", idx, item, len(loaded)-hl, hl)
+			return
+		}
+		want := loaded[int(item)+hl]
 		rs := []rune(line)
 		for len(rs) < 2 {
 			rs = append(rs, ' ')
@@ -324,6 +334,35 @@ func c15Settle(r *sysRun, busy bool) {
 			if runeWidthOf(text) > textWidth+1 {
 				c.violate("c15.width", "row %d: truncated text %q is %d columns wide, window allows %d", row, text, runeWidthOf(text), textWidth)
 				return
+			}
+		}
+	}
+	// --- header lines of the input: right next to the info/--header rows, in the direction of the layout;
+	// rows reserved for header lines the (re)loaded input does not have are blank
+	if plan.Header > 0 && t.headerVisible && layout != "reverse-list" {
+		base := 0
+		if hasArg(plan.Args, "--header") {
+			base = 1
+		}
+		for j := 0; j < plan.Header; j++ {
+			row := rows - 1 - fixed - base - j
+			if layout == "reverse" {
+				row = fixed + base + j
+			}
+			if row < 0 || row >= rows {
+				continue
+			}
+			want := ""
+			if j < len(loaded) {
+				want = "  " + loaded[j]
+			}
+			got := scr[row]
+			wt := strings.TrimRight(want, " ")
+			if runeWidthOf(wt) < cols-2 {
+				if got != wt {
+					c.violate("c15.header_line", "screen row %d should show header line %d %q but shows %q (%s)%s", row, j, wt, got, where, dump())
+					return
+				}
 			}
 		}
 	}
